@@ -65,8 +65,8 @@ BASE = {"NAddr": 4, "NRelayAddr": 1, "ArgSets": "{{}, {1}, {1, 2, 3}, {4}}", "MA
 
 def run(ctx):
     # 1. exhaustive
-    for services in ("TRUE", "FALSE"):
-        c = dict(BASE, MaxReq=ctx.pick(2, 3), MaxClock=ctx.pick(3, 4), MaxSteps=0, Services=services, CodeRule="FALSE",
+    for services in ctx.pick(("TRUE",), ("TRUE", "FALSE")):
+        c = dict(BASE, MaxReq=ctx.pick(2, 3), MaxClock=3, MaxSteps=0, Services=services, CodeRule="FALSE",
                  TrackHist="FALSE", ActorOnly="FALSE")
         ctx.tlc("socket", "PathState", cfg="PathState_mc.cfg", constants=c, timeout=2400, coverage=(services == "TRUE"),
                 require_actions=["Resolve", "LookupItem", "LookupEnd", "OpenPath", "Abandon", "Select", "Deselect"])
@@ -80,8 +80,10 @@ def run(ctx):
         cases = [json.load(open(ctx.replay))["replay"]["behaviour"]]
     else:
         cases = directed(ctx)
-        plan = [("state", "TRUE", "FALSE", ctx.pick(400, 6000), 9), ("state", "FALSE", "FALSE", ctx.pick(100, 1500), 8),
-                ("actor", "TRUE", "TRUE", ctx.pick(200, 3000), 7), ("actor", "FALSE", "TRUE", ctx.pick(40, 300), 6)]
+        plan = [("state", "TRUE", "FALSE", ctx.pick(400, 6000), 9), ("actor", "TRUE", "TRUE", ctx.pick(200, 3000), 7),
+                ("actor", "FALSE", "TRUE", ctx.pick(40, 300), 6)]
+        if not ctx.quick:
+            plan.append(("state", "FALSE", "FALSE", 1500, 8))
         for level, services, actoronly, n, steps in plan:
             c = dict(BASE, MaxReq=3, MaxClock=6, MaxSteps=steps, Services=services, CodeRule="FALSE", TrackHist="TRUE",
                      ActorOnly=actoronly)
